@@ -52,6 +52,7 @@ type critRace struct {
 	DelaysMs    []int    `json:"delays_ms"`
 	SingleMs    int      `json:"single_build_ms,omitempty"`
 	StartAtPct  []int    `json:"start_at_percent_of_first,omitempty"`
+	WallMs      []int    `json:"invocation_wall_ms,omitempty"`
 	Exits       []int    `json:"exits"`
 	Outputs     []string `json:"outputs,omitempty"`
 	Log         []string `json:"action_log,omitempty"`
@@ -101,6 +102,7 @@ func tailOf(s string, n int) string {
 // judgeCrit: the oracle of one trial. wantRuns < 0: the target has no command (filegroup).
 func (cr *critRace) judge(res []invRes, wantFinal, gotFinal string, wantRuns int) {
 	for _, r := range res {
+		cr.WallMs = append(cr.WallMs, int(r.endMs-r.startMs))
 		cr.Exits = append(cr.Exits, r.Exit)
 		if r.Exit != 0 {
 			cr.Outputs = append(cr.Outputs, tailOf(r.Output, 500))
@@ -316,7 +318,7 @@ func (f *fgRepo) progress() int {
 }
 
 // trial: invocation 0 starts at once; invocation k > 0 starts when invocation 0 has populated at[k] percent of the
-// output (at != nil; invocation 0 then runs at niceness 10, so that the later ones arrive while it is part-way through
+// output (at != nil; invocation 0 then runs at niceness 19, so that the later ones arrive while it is part-way through
 // whatever the load on the machine is), or delays[k] after invocation 0.
 func (f *fgRepo) trial(c *lib.Ctx, trial, nInv int, delays []time.Duration, at []int) *critRace {
 	f.repo.RemovePlzOut()
@@ -346,7 +348,7 @@ func (f *fgRepo) trial(c *lib.Ctx, trial, nInv int, delays []time.Duration, at [
 			started[k] = time.Since(t0).Milliseconds()
 			niceness := 0
 			if k == 0 && at != nil {
-				niceness = 10
+				niceness = 19
 			}
 			res[k] = runPlzNice(f.repo, niceness, 2, false, []string{"//p:fg"}, 120*time.Second)
 			if k == 0 {
@@ -438,8 +440,8 @@ func runFilegroupStreams(c *lib.Ctx, base string) []*critRace {
 		}
 		for t := 0; t < x.trials; t++ {
 			if x.variant != "single-file" && (t < 2 || t%2 == 0) {
-				// the later invocations are started when the first (at a lower priority) has populated 3-8 % / 12-30 % of the output
-				out = append(out, f.trial(c, t, 3, nil, []int{0, 3 + c.Rng.Intn(6), 12 + c.Rng.Intn(19)}))
+				// the later invocations are started when the first (at a lower priority) has populated 3-6 % / 8-20 % of the output
+				out = append(out, f.trial(c, t, 3, nil, []int{0, 3 + c.Rng.Intn(4), 8 + c.Rng.Intn(13)}))
 				continue
 			}
 			// staggered in time: each later invocation starts a random 10-45 % of a single build after the previous one
